@@ -816,6 +816,8 @@ DIRECTED = [
     # youtube
     C("youtube", YTH, ["user", "", "x"]), C("youtube", YTH, ["channel", "", "x"]), C("youtube", YTH, ["c", "", "x"]), C("youtube", YTH, ["watch"], True), C("youtube", YTH, ["embed"]), C("youtube", YTH, ["."]),
     C("youtube", "https://youtu.be", [VID]), C("youtube", "https://youtu.be", [VID + "%5D"]), C("youtube", "https://youtu.be", ["short"]), C("youtube", "https://youtu.be", ["", VID]),
+    C("youtube", YTH, ["watch"], False, "v=" + VID + "&list="), C("youtube", YTH, ["watch"], False, "list=&v=" + VID + "&list=PL1"), C("youtube", YTH, ["watch"], False, "v=" + VID + "&list=&t=1"),
+    C("youtube", "http://:80", ["watch"], False, "v=" + VID), C("youtube", "http://@", ["x"], False), C("youtube", YTH, ["embed", "abc"], False), C("youtube", YTH, ["embed"], False), C("youtube", YTH, ["v", "x" * 30], False),
     C("youtube", YTH, ["watch"], False, "v=" + VID), C("youtube", YTH, ["watch"], False, "v=" + VID + "&list=PL1"), C("youtube", YTH, ["watch"], False, "list=PL1&v=" + VID), C("youtube", YTH, ["watch"]),
     C("youtube", YTH, ["watch"], True, "v=" + VID), C("youtube", YTH, ["watch"], False, "v=" + VID + "xyz"), C("youtube", YTH, ["embed"], True), C("youtube", YTH, ["embed", VID], False, "autoplay=1"),
     C("youtube", YTH, ["v"], True), C("youtube", YTH, ["v", VID]), C("youtube", YTH, ["video"], True), C("youtube", YTH, ["video", VID]), C("youtube", YTH, ["shorts"], True), C("youtube", YTH, ["shorts", VID]),
